@@ -421,3 +421,28 @@ Proof.
 Qed.
 
 End Total.
+
+(** * the int32 model on the property's domain, and everywhere *)
+Theorem NextOne32_any bm : words_ok bm -> 64 * zlen bm < 2^31 -> forall i e, in_i32 i ->
+  NextOne32 bm i e = spec_NextOne_any bm i e.
+Proof. intros Hok Hs i e Hi. rewrite NextOne32_eq by assumption. now apply NextOne_any. Qed.
+
+Theorem PrevOne32_any bm : words_ok bm -> 64 * zlen bm < 2^31 -> forall i e, in_i32 i -> in_i32 e ->
+  PrevOne32 bm i e = spec_PrevOne_any bm i e.
+Proof. intros Hok Hs i e Hi He. rewrite PrevOne32_eq by assumption. now apply PrevOne_any. Qed.
+
+Theorem NextOne32_exact bm : words_ok bm -> 64 * zlen bm < 2^31 -> forall i e,
+  0 <= i <= e -> e <= 64 * zlen bm -> i < 64 * zlen bm ->
+  NextOne32 bm i e = Some (spec_NextOne bm i e).
+Proof.
+  intros Hok Hs i e Hi He HiN. rewrite NextOne32_eq by (try assumption; unfold in_i32; lia).
+  now apply NextOne_exact.
+Qed.
+
+Theorem PrevOne32_exact bm : words_ok bm -> 64 * zlen bm < 2^31 -> forall i e,
+  0 <= i <= e -> e <= 64 * zlen bm -> i < 64 * zlen bm -> 1 <= e ->
+  PrevOne32 bm i e = Some (spec_PrevOne bm i e).
+Proof.
+  intros Hok Hs i e Hi He HiN He1. rewrite PrevOne32_eq by (try assumption; unfold in_i32; lia).
+  now apply PrevOne_exact.
+Qed.
